@@ -26,7 +26,9 @@ RULE = ('Installables: executables, shared / static / versioned shared '
         'data file, a generated .pc file; optional directory= arguments; all '
         'combinations of --prefix/--exec-prefix/--bindir/--libdir/'
         '--includedir/--datadir/--mandir (paths with spaces); DESTDIR with '
-        'spaces at install time (make) or configure time (make, ninja).  '
+        'spaces at install time (make) or configure time (make, ninja); '
+        'optionally a forced or touch-triggered regeneration before the '
+        'build.  '
         'Non-trivial: >= 3 kinds installed, an implicit run-time dependency '
         'and a non-default directory or DESTDIR; distinct = installed kinds + '
         'directory options + DESTDIR mode + backend.')
